@@ -896,6 +896,7 @@ MUTANTS = [
     Mutant("pipeline-key-raw", "pipefunc/_pipeline/_cache.py", "        key = to_hashable(kwargs[k])\n", "        key = kwargs[k]\n", ("C15.8-sole",)),
     Mutant("ndarray-memory-order", F, "            data = tuple(obj.flatten())\n", "            data = tuple(obj.ravel(order=\"K\"))\n", ("C15.6-identity",), why="seeded C15/1"),
     Mutant("memoize-args-only-key", F, "                    (args, kwargs),\n", "                    (args, kwargs) if kwargs else args,\n", ("C15.8-sole",), why="seeded C15/3"),
+    Mutant("disk-file-named-after-str-key", "pipefunc/cache.py", "        key_hash = _pickle_key(key)\n", "        key_hash = hashlib.md5(str(key).encode()).hexdigest()  # noqa: S324\n", ("C15.7-stable",), why="round-8 seed C14/24"),
     Mutant("twin-rename-marker", F, "    m = _HASH_MARKER\n", "    m = _HASH_MARKER  # marker\n", twin=True),
     Mutant("twin-set-tuple-test", F, "if isinstance(obj, set | frozenset):", "if isinstance(obj, (set, frozenset)):", twin=True),
     Mutant("twin-sorted-helper-inline", F, "    items = list(items)\n    try:\n        return sorted(items, key=lambda x: _sort_key(key(x)))",
